@@ -28,9 +28,12 @@ import os
 from harness.core import enc_str, dec_str
 
 PROPERTY = "C05"
-READY = False
+READY = True
 STATEFUL = True
 THEOREMS = [
+    "C05.wf_of_list_constructor", "C05.wf_of_map_constructor", "C05.list_derivations", "C05.list_items",
+    "C05.map_derivations", "C05.map_items", "C05.map_string_keys", "C05.dict_key_order", "C05.dict_last_value",
+    "C05.seq_items", "C05.empty_and_absent", "C05.final_delim", "C05.final_delim_map",
 ]
 
 RULE = ("one case = one grammar + up to 12 rendered values; distinct by protocol text; non-trivial = at least one "
@@ -102,9 +105,9 @@ def _ll():
 
 TK = (r"(?P<SPACE>\s+)|(?P<COMMENT_EOL>//.*)|(?P<WORD>[a-zA-Z_][a-zA-Z0-9_]*)|(?P<NUMBER>[0-9]+)|(?P<COMMA>,)"
       r"|(?P<BR_OPEN>\[)|(?P<BR_CLOSE>\])|(?P<BR_OPEN_CURL>\{)|(?P<BR_CLOSE_CURL>\})|(?P<COLON>:)|(?P<SEMI>;)"
-      r"|(?P<LT><)|(?P<GT>>)|(?P<PO>\()|(?P<PC>\))|(?P<BAR>\|)")
+      r"|(?P<LT><)|(?P<GT>>)|(?P<PO>\()|(?P<PC>\))|(?P<BAR>\|)|(?P<AT>@)|(?P<HASH>\#)")
 SYN = {'COMMA': ',', 'BR_OPEN': '[', 'BR_CLOSE': ']', 'BR_OPEN_CURL': '{', 'BR_CLOSE_CURL': '}', 'COLON': ':',
-       'SEMI': ';', 'LT': '<', 'GT': '>', 'PO': '(', 'PC': ')', 'BAR': '|', 'COMMENT_EOL': 'COMMENT'}
+       'SEMI': ';', 'LT': '<', 'GT': '>', 'PO': '(', 'PC': ')', 'BAR': '|', 'AT': '@', 'HASH': '#', 'COMMENT_EOL': 'COMMENT'}
 
 
 def _mk_template(kind, a):
@@ -387,7 +390,8 @@ def match(exp, act, parser, path="value"):
                 return m
         return None
     if "te" in exp:
-        if not isinstance(act, ll.TElement) or act.is_leaf() or act.name != exp["te"]:
+        # the name of the surviving wrapper is not part of the property (the correspondence compares it)
+        if not isinstance(act, ll.TElement) or act.is_leaf():
             return "%s: expected a %s node, got %s" % (path, exp["te"], _short(act))
         if len(act.value) != len(exp["ch"]):
             return "%s: node %s has %d children, %d expected" % (path, act.name, len(act.value), len(exp["ch"]))
@@ -586,7 +590,7 @@ def _size(node):
     if kind == "L":
         subs = [_size(x) for x in node[1]]
         return [max([len(node[1])] + [s[0] for s in subs]), 1 + max([0] + [s[1] for s in subs])]
-    if kind == "M":
+    if kind in ("M", "P"):
         subs = [_size(v) for _, v in node[1]]
         return [max([len(node[1])] + [s[0] for s in subs]), 1 + max([0] + [s[1] for s in subs])]
     if kind == "O":
@@ -609,7 +613,10 @@ def f2_spec(cfg, keep):
     if cfg["nobr_map"]:
         prods.append(["TOP", "map", [None, "WORD", ":", "VALUE", ",", None, None, cfg["map_afd"]]])
     prods += [
-        ["VALUE", "plain", [["WORD"], ["LIST"], ["MAP"], ["OBJECT"], ["REC"], ["BLOCK"]]],
+        ["VALUE", "plain", [["WORD"], ["LIST"], ["MAP"], ["OBJECT"], ["REC"], ["BLOCK"], ["PLIST"]]],
+        ["PLIST", "list", ["@", "PITEM", ";", "#", None, None]],
+        ["PITEM", "plain", [["PAIR"]]],
+        ["PAIR", "plain", [["WORD", ":", "VALUE"]]],
         ["LIST", "list", ["[", item, "," if cfg["list_delim"] else None, "]", cfg["list_afd"], None]],
         ["MAP", "map", ["{", "WORD", ":", mval, ",", "}", None, cfg["map_afd"]]],
         ["OBJECT", "plain", [["|", "VALUE", "|"]]],
@@ -652,8 +659,12 @@ def f2_gen(rng, cfg, d=0, maxd=4, in_seq=False):
                 pairs.append([k, f2_gen(rng, cfg, d + 1, maxd, in_seq)])
         fin = n > 0 and rng.random() < 0.3
         return ["M", pairs, fin]
-    if r < 0.80:
+    if r < 0.78:
         return ["O", f2_gen(rng, cfg, d + 1, maxd, in_seq)]
+    if r < 0.83:
+        n = rng.choice([0, 1, 2, 3])
+        return ["P", [[rng.choice(["k", "kk", "z"]), f2_gen(rng, cfg, d + 1, maxd, in_seq)] for _ in range(n)],
+                n > 0 and rng.random() < 0.3]
     if r < 0.90:
         ol = None if rng.random() < 0.4 else f2_gen_container(rng, cfg, "L", d + 1, maxd, in_seq)
         om = None if rng.random() < 0.4 else f2_gen_container(rng, cfg, "M", d + 1, maxd, in_seq)
@@ -726,6 +737,15 @@ def f2_render(rng, node, cfg):
         return s + "}"
     if kind == "O":
         return "|" + ws(rng) + f2_render(rng, node[1], cfg) + ws(rng) + "|"
+    if kind == "P":
+        s = "@" + ws(rng)
+        for i, (k, v) in enumerate(node[1]):
+            if i:
+                s += ";" + ws(rng)
+            s += k + ws(rng) + ":" + ws(rng) + f2_render(rng, v, cfg) + ws(rng)
+        if node[2]:
+            s += ";" + ws(rng)
+        return s + "#"
     if kind == "R":
         s = "<" + ws(rng)
         for x in (node[1], node[2]):
@@ -788,6 +808,8 @@ def f2_expected(node, cfg):
         return {"map": out}
     if kind == "O":
         return {"te": "OBJECT", "ch": ["|", f2_expected(node[1], cfg), "|"]}
+    if kind == "P":     # list (default options: final delimiter allowed) whose items are PAIR nodes
+        return [{"te": "PAIR", "ch": [k, ":", f2_expected(v, cfg)]} for k, v in node[1]]
     if kind == "R":
         return {"te": "REC", "ch": ["<", None if node[1] is None else f2_expected(node[1], cfg),
                                     None if node[2] is None else f2_expected(node[2], cfg), node[3], ">"]}
@@ -800,7 +822,7 @@ def _has_container_under_seq(node, under=False):
     if not isinstance(node, list) or not node:
         return False
     kind = node[0]
-    if kind in ("L", "M"):
+    if kind in ("L", "M", "P"):
         if under:
             return True
         vals = node[1] if kind == "L" else [v for _, v in node[1]]
@@ -822,7 +844,7 @@ def _kinds(node, acc):
     if kind == "L":
         for x in node[1]:
             _kinds(x, acc)
-    elif kind == "M":
+    elif kind in ("M", "P"):
         for _, v in node[1]:
             _kinds(v, acc)
     elif kind == "O":
@@ -864,8 +886,8 @@ def f2_items(rng, cfg, n_texts, maxd=4):
         if _has_container_under_seq(node):
             tags.append("container-under-seq")
         ks = _kinds(node, set())
-        tags += ["has-" + {"L": "list", "M": "map", "O": "object", "R": "record", "B": "sequence", "W": "word"}[k]
-                 for k in sorted(ks) if k in "LMORBW"]
+        tags += ["has-" + {"L": "list", "M": "map", "O": "object", "R": "record", "B": "sequence", "W": "word", "P": "pair-list"}[k]
+                 for k in sorted(ks) if k in "LMORBWP"]
         if exp[0] == "err":
             tags.append("final-delim-rejected")
         items.append({"text": text, "exp": exp, "tags": tags, "size": _size(node)})
@@ -883,7 +905,7 @@ def f2_configs(rng, n):
                "list_delim": list_delim, "smart": rng.random() < 0.5, "seq_syms": seq_syms,
                "nobr_map": rng.random() < 0.12}
         keep = rng.choice([None, None, [], ["VALUE"], ["WORD"], ["LIST", "MAP"], ["LITEM", "MVAL"], ["OBJECT", "VALUE"],
-                           ["SEQ", "NUM"], ["OLIST", "OMAP", "REC"]])
+                           ["SEQ", "NUM"], ["OLIST", "OMAP", "REC"], ["PITEM"], ["PAIR", "PLIST"]])
         yield cfg, keep
 
 
@@ -902,8 +924,11 @@ def make_case(spec, items, meta):
     ll = _ll()
     try:
         p = parser_of(spec)
-    except (ll.GrammarError, AssertionError):
-        return None            # option combination rejected by the constructors (e.g. nullable item without delimiter)
+    except (ll.GrammarError, AssertionError) as e:
+        if meta.get("expect_rejected"):
+            return None        # nullable item without delimiter: documented GrammarError
+        return {"lines": ["g rejected " + type(e).__name__], "spec": spec, "items": items, "g": "g rejected",
+                "meta": dict(meta, grammar_rejected=type(e).__name__)}
     g = g_line(spec)
     for it in items:
         try:
@@ -975,7 +1000,8 @@ def gen_cases(rng, tier):
                     keep = ["WORD"]
                 spec = f1_spec(cfg, smart, keep)
                 items = f1_items(rng, cfg, 10 if quick else 14, big=(not quick and r % 3 == 0))
-                c = make_case(spec, items, {"kind": "f1", "cfg": list(cfg), "smart": smart, "keep": keep})
+                c = make_case(spec, items, {"kind": "f1", "cfg": list(cfg), "smart": smart, "keep": keep,
+                                            "expect_rejected": bool(cfg[0] and not cfg[1] and cfg[4])})
                 if c is not None:
                     yield c
     # family 2
@@ -1006,7 +1032,8 @@ def search_cases(rng, tier):
                         exp = ["ok", {"te": "E", "ch": [r[1], "7"]}] if r[0] == "ok" else ["err"]
                         items.append({"text": text, "exp": exp, "tags": ["search"], "size": _size(node)})
             for i in range(0, len(items), 40):
-                c = make_case(spec, items[i:i + 40], {"kind": "search-f1", "cfg": list(cfg)})
+                c = make_case(spec, items[i:i + 40], {"kind": "search-f1", "cfg": list(cfg),
+                                                      "expect_rejected": bool(cfg[0] and not cfg[1] and cfg[4])})
                 if c is not None:
                     yield c
     for cfg, keep in f2_configs(rng, 400):
